@@ -1228,6 +1228,51 @@ fn main() {
         r.section("lanes", r.args.n(if tiny { 60 } else if san { 3_000 } else { 20_000 }, 600_000), |k, rng, acc| {
             by_lane_type!(k as usize, lanes_case, rng, acc, "C04", tiny);
         });
+        // lanes beyond 2^31 / 2^32 elements (thorough tier, plain release build only; needs 9 / 18 GB)
+        if thorough && !san && !tiny && r.args.profile == "release" {
+            r.section("huge_lanes", 2, |k, _rng, acc| {
+                let avail_gb = std::fs::read_to_string("/proc/meminfo")
+                    .ok()
+                    .and_then(|m| m.lines().find(|l| l.starts_with("MemAvailable:")).and_then(|l| l.split_whitespace().nth(1).and_then(|v| v.parse::<u64>().ok())))
+                    .unwrap_or(0)
+                    / (1 << 20);
+                let (n, fill_nan, need_gb): (usize, bool, u64) = if k == 0 { ((1usize << 31) + 5, false, 14) } else { ((1usize << 32) + 3, true, 26) };
+                if avail_gb < need_gb {
+                    acc.count("huge_lane_skipped_low_memory");
+                    return;
+                }
+                acc.eval();
+                // k = 0: 2^31+5 zeros with 2 NaNs (lazily mapped zero pages); k = 1: 2^32 NaNs and 3 values
+                let mut v: Vec<f32> = if fill_nan { vec![f32::NAN; n] } else { vec![0f32; n] };
+                let expect = if fill_nan {
+                    v[7] = 1.5;
+                    v[n / 2] = -2.5;
+                    v[n - 2] = 3.5;
+                    3usize
+                } else {
+                    v[11] = f32::NAN;
+                    v[n - 3] = f32::from_bits(0x7f80_0001);
+                    n - 2
+                };
+                let mut a = Array1::from(v);
+                let res = catch(|| {
+                    let r = <f32 as MaybeNan>::remove_nan_mut(a.view_mut());
+                    let len = r.len();
+                    let nan_inside = r.iter().filter(|x| x.raw().is_nan()).count();
+                    (len, nan_inside)
+                });
+                let detail = |what: String| J::obj(vec![("op", J::s("remove_nan_mut on a lane longer than 2^31 elements")), ("elem", J::s("f32")), ("len", J::s(format!("{}", n))), ("what", J::s(what))]);
+                match res {
+                    Ok((len, nan_inside)) if len == expect && nan_inside == 0 => {
+                        acc.exact_nontrivial += 1;
+                        acc.count("huge_lanes_judged");
+                    }
+                    Ok((len, nan_inside)) => acc.violation("length", None, detail(format!("returned length {} with {} NaN inside, expected {} non-missing elements", len, nan_inside, expect))),
+                    Err(m) => acc.violation("no_panic", None, detail(format!("panicked: {}", m))),
+                }
+                acc.sample(|| detail("sample".into()));
+            });
+        }
         // longer random masks
         if !tiny {
             r.section("long_masks", r.args.n(if san { 1_000 } else { 6_000 }, 200_000), |k, rng, acc| {
@@ -1274,6 +1319,5 @@ fn main() {
         });
     }
 
-    let _ = thorough;
     r.finish("mem", vec![("sanitizer_mode", J::B(san)), ("tiny", J::B(tiny))]);
 }
